@@ -1759,7 +1759,8 @@ pub fn lookup(seed: u64, focus: Focus, rep: &mut Report) {
                 _ => rng.array(),
             };
             let predicate = rng.chance(1, 3);
-            let want = 1 + rng.usize(16);
+            // (now and then "as many as there are": the largest count the type can express)
+            let want = if rng.chance(1, 10) { usize::MAX } else { 1 + rng.usize(16) };
             let t_start = s.w.now();
             let pos0 = s.w.trace.len();
             let call = s.apis.len();
@@ -1919,6 +1920,8 @@ pub fn lookup(seed: u64, focus: Focus, rep: &mut Report) {
             // ---- the result ----
             let ApiOut::Nodes(Ok(result)) = out else {
                 rep.count("sys_lookup_errors");
+                // the service is running: a lookup hands back a result, never an error
+                s.flag(rep, Focus::C09, "C09:lookup-returned-error", format!("the lookup returned {out:?} instead of a result"), wit.clone());
                 continue;
             };
             rep.count_n("sys_lookup_results", result.len() as u64);
